@@ -51,3 +51,25 @@ lemma("psum_zero",
       requires=["0 <= m", "m <= len(v)", "forall(0, len(v), lambda k: v[k] == 0)"],
       ensures=[("zero", "psum(v, m) == 0")],
       induct="m", props=("C04",))
+
+
+# a stretch of a vector whose neighbours are equal is constant (runs of like segments)
+lemma("adjacent_equal_constant",
+      vars=dict(f=VecT(Real), lo=Int, k=Int),
+      requires=["0 <= lo", "lo <= k", "k < len(f)", "forall(0, len(f), lambda j: implies(lo <= j and j < k, f[j] == f[j + 1]))"],
+      ensures=[("constant", "f[k] == f[lo]")],
+      induct="k", props=("C14",))
+
+
+# prefix sums of non-negative terms grow with the prefix; a stretch of zeros adds nothing (weighted median)
+lemma("psum_monotone",
+      vars=dict(v=VecT(Real), a=Int, b=Int),
+      requires=["0 <= a", "a <= b", "b <= len(v)", "forall(0, len(v), lambda k: v[k] >= 0)"],
+      ensures=[("monotone", "psum(v, a) <= psum(v, b)")],
+      induct="b", props=("C19",))
+
+lemma("psum_flat",
+      vars=dict(v=VecT(Real), a=Int, b=Int),
+      requires=["0 <= a", "a <= b", "b <= len(v)", "forall(0, len(v), lambda k: implies(a <= k and k < b, v[k] == 0))"],
+      ensures=[("flat", "psum(v, b) == psum(v, a)")],
+      induct="b", props=("C19",))
